@@ -1,5 +1,6 @@
 import Ww.Driver.Proto
 import Ww.Driver.Meta
+import Ww.Driver.Sys
 open Ww.Driver
 
 def dispatch (l : Line) : List Verdict :=
@@ -7,6 +8,9 @@ def dispatch (l : Line) : List Verdict :=
   | "meta" => handleMeta l
   | "mrefresh" => handleMRefresh l
   | "mnew" => handleMNew l
+  | "hstep" => handleHStep l
+  | "hafter" => handleHAfter l
+  | "hstart" => [Verdict.ok]
   | k => [Verdict.bad s!"unknown kind {k}"]
 
 partial def loop (h : IO.FS.Stream) (out : IO.FS.Stream) (i : Nat) : IO Unit := do
